@@ -211,6 +211,7 @@ class MBuild:
         self.roots = []
         self.lock = threading.RLock()
         self.root_finished = False
+        self.setup_fail = {}     # abs target -> exception instance (injected mkdir/rename fault)
         for a in reversed(ancestors(model.cache)):
             if a not in self.v:
                 self.v[a] = ('d',)
@@ -494,6 +495,12 @@ class MBuilder:
         try:
             try:
                 with mb.lock:
+                    if p in mb.setup_fail:
+                        # an injected OS error while preparing this call: the call fails
+                        # in setup; the duplicate/cache-file checks come first
+                        if p in mb.claimed_files:
+                            raise RuntimeError('Building the same file twice is not allowed')
+                        raise mb.setup_fail[p]
                     node.clobbered = mb.begin_file(p)
             except Exception:
                 node.raised = node.setup = True
@@ -589,6 +596,8 @@ class ModelAPI:
         if rec is not None and rec.build_name != build_name:
             raise RuntimeError('build name mismatch')
         mb = MBuild(m, build_name, versions)
+        mb.setup_fail = dict(getattr(self, 'next_setup_fail', None) or {})
+        self.next_setup_fail = None
         self.last_build = mb
         root = MBuilder(mb, None)
         try:
